@@ -742,6 +742,53 @@ func (ex *Exec) beforeHooks(st *State, calleeName string, c *ssa.CallCommon, pos
 	if ex.con == nil || ex.con.Before == nil {
 		return
 	}
+	// `before NAME@k`: only the k-th call site of NAME in source order (1-based)
+	if k := ex.callSiteOrdinal(calleeName, pos); k > 0 {
+		if key := fmt.Sprintf("%s@%d", calleeName, k); ex.con.Before[key] != nil && !strings.Contains(calleeName, "@") {
+			ex.beforeHooksKey(st, key, c, pos)
+		}
+	}
+	ex.beforeHooksKey(st, calleeName, c, pos)
+}
+
+// callSiteOrdinal: the position of this call among the call sites of the same callee name in the function under
+// verification, in source order; 0 when unknown (no position, or the call sits in an inlined helper).
+func (ex *Exec) callSiteOrdinal(calleeName string, pos token.Pos) int {
+	if !pos.IsValid() || ex.inlineDepth > 0 {
+		return 0
+	}
+	if ex.siteOrd == nil {
+		ex.siteOrd = map[string][]token.Pos{}
+		for _, b := range ex.fn.Blocks {
+			for _, in := range b.Instrs {
+				ci, ok := in.(ssa.CallInstruction)
+				if !ok {
+					continue
+				}
+				cn := ""
+				if callee := ci.Common().StaticCallee(); callee != nil {
+					cn = callee.Name()
+				} else if ci.Common().IsInvoke() {
+					cn = ci.Common().Method.Name()
+				}
+				if cn != "" && ci.Pos().IsValid() {
+					ex.siteOrd[cn] = append(ex.siteOrd[cn], ci.Pos())
+				}
+			}
+		}
+		for _, ps := range ex.siteOrd {
+			sort.Slice(ps, func(i, j int) bool { return ps[i] < ps[j] })
+		}
+	}
+	for i, p := range ex.siteOrd[calleeName] {
+		if p == pos {
+			return i + 1
+		}
+	}
+	return 0
+}
+
+func (ex *Exec) beforeHooksKey(st *State, calleeName string, c *ssa.CallCommon, pos token.Pos) {
 	cls := ex.con.Before[calleeName]
 	if cls == nil {
 		return
